@@ -1122,6 +1122,17 @@ expand_manifests(string &expr, bool expand_undefined,
         }
       }
     }
+    else if (isdigit(expr[p])) {
+      // A number is a single token: its base prefix, suffix and digit
+      // separators (0xFF, 1L, 10u, 1'000) are not identifiers or quotes.
+      p++;
+      while (p < expr.size() &&
+             (isalnum(expr[p]) || expr[p] == '_' || expr[p] == '.' ||
+              (expr[p] == '\'' && p + 1 < expr.size() &&
+               (isalnum(expr[p + 1]) || expr[p + 1] == '_')))) {
+        p++;
+      }
+    }
     else if (expr[p] == '\'' || expr[p] == '"') {
       // Skip the next part until we find a closing quotation mark.
       char quote = expr[p];
